@@ -185,9 +185,12 @@ def run_trace(ops, root):
         elif op == "SetInPlace":
             # the object the index hands out is completed in place and stored again under its key
             key = tuple(a["k"].split("/"))
-            obj, want = st.idx._trie[key], st.entry(key, a["e"])
-            obj.meta, obj.hash_info, obj.loaded = want.meta, want.hash_info, want.loaded
-            st.idx[key] = obj
+            try:
+                obj, want = st.idx._trie[key], st.entry(key, a["e"])
+                obj.meta, obj.hash_info, obj.loaded = want.meta, want.hash_info, want.loaded
+                st.idx[key] = obj
+            except KeyError:
+                pass     # the index does not hold what the history says it holds: the listing logged below tells
         elif op == "Del":
             del st.idx[tuple(a["k"].split("/"))]
         elif op == "Elsewhere":
